@@ -62,7 +62,7 @@ CHECKS = {
          "closed) is validated against the protocol by TLC. The line cursor all readers share (LineIter.tla: push-back stack, "
          "reported line number; LinenoLaw, DeliversInOrder) is model-checked and every operation sequence up to depth 5 plus "
          "random walks on the real LineIterator are validated against it.",
-    note="frame kinds of arbitrary content are inferred from observed yields; shape consistency is computed from the data model only; termination is a 40 s alarm per load",
+    note="frame kinds of arbitrary content are inferred from observed yields; shape consistency is computed from the data model only; termination is a budget of 120 CPU seconds per load (plus a wall-clock backstop)",
     technique="TLA+ protocol model (ApiLoad.tla) checked with TLC + trace validation of real load_one/load_many executions on truncated/mutated corpus files"),
  "C17": dict(
     category="model_checking", design_ref="DESIGN.md section 6 C17",
